@@ -205,6 +205,32 @@ func c07CheckOnce(in modInput) string {
 	if err == nil && (!proto.Equal(m, m2) || !proto.Equal(snapshot, m)) {
 		return "merging the same files a second time gives a different model (or changed the model returned before)"
 	}
+	// the same files with another schema version, then with the first one again: the version is an argument like the files
+	alt := in.Schema + ".9"
+	if in.Schema == "" {
+		alt = "1.1"
+	}
+	m3, errs3, err3, pan3 := mergeSafe(in.moduleFiles(), alt)
+	if pan3 != "" {
+		return "TransformModuleFilesToModel panicked when the same files were merged with another schema version: " + pan3
+	}
+	if (err == nil) != (err3 == nil) {
+		return fmt.Sprintf("merging the same files with schema version %q instead of %q changes the verdict: first %v, then %v", alt, in.Schema, errs, errs3)
+	}
+	if err == nil {
+		if m3.GetSchemaVersion() != alt {
+			return fmt.Sprintf("merge with schema version %q directly after a merge of the same files with %q: the model says %q", alt, in.Schema, m3.GetSchemaVersion())
+		}
+		c3 := proto.Clone(m3).(*openfgav1.AuthorizationModel)
+		c3.SchemaVersion = m.GetSchemaVersion()
+		if !proto.Equal(c3, m) {
+			return "merging the same files with another schema version changes more than the schema version"
+		}
+		m4, _, err4, _ := mergeSafe(in.moduleFiles(), in.Schema)
+		if err4 != nil || !proto.Equal(m4, m) {
+			return fmt.Sprintf("merging with the first schema version again (after another version in between) gives a different result: schema %q, error %v", m4.GetSchemaVersion(), err4)
+		}
+	}
 	if len(in.Conflicts) == 0 {
 		if err != nil {
 			return fmt.Sprintf("conflict-free file set rejected: %v", errs)
@@ -383,6 +409,7 @@ func TestC07(t *testing.T) {
 		rec.Require("conflict:"+k, 0.02)
 	}
 	rapid.Check(t, func(rt *rapid.T) {
+		noiseCall(rt) // one case in three is preceded by an unrelated, mostly failing call (see noise_test.go)
 		ms := gen.Modules(rt, gen.ModOpts{MaxConflicts: 2, Layout: true, CaseNames: true, Twice: true, EmptySelfExt: true, GlueNames: true, BigExt: true, Scale: true})
 		in := modInputOf(ms)
 		cls, _, nt := modClasses(ms)
@@ -440,6 +467,17 @@ func c12Check(in modInput) string {
 		return "TransformModuleFilesToModel panicked: " + pan
 	}
 	for i := 0; i < 20; i++ {
+		if i == 7 {
+			// "on every invocation": also after the same list was merged for another schema version in between
+			alt := in.Schema + "-b"
+			ma, _, erra, _ := mergeSafe(in.moduleFiles(), alt)
+			if (erra == nil) != (err0 == nil) {
+				return fmt.Sprintf("the same file list with schema version %q: success=%v, with %q: success=%v", alt, erra == nil, in.Schema, err0 == nil)
+			}
+			if erra == nil && ma.GetSchemaVersion() != alt {
+				return fmt.Sprintf("merge with schema version %q after merges of the same list with %q returns a model that says %q", alt, in.Schema, ma.GetSchemaVersion())
+			}
+		}
 		m, errs, err, pan := mergeSafe(in.moduleFiles(), in.Schema)
 		if pan != "" {
 			return "TransformModuleFilesToModel panicked: " + pan
@@ -488,6 +526,7 @@ func TestC12(t *testing.T) {
 	rec.Require("set:two-or-more-extending-files", 0.5)
 	rec.Require("set:two-or-more-conflicts", 0.15)
 	rapid.Check(t, func(rt *rapid.T) {
+		noiseCall(rt) // one case in three is preceded by an unrelated, mostly failing call (see noise_test.go)
 		ms := gen.Modules(rt, gen.ModOpts{MaxConflicts: 3, MinExtFiles: 2, MaxFiles: 5, MultiDup: true, CaseNames: true, Layout: true, BigExt: true, Scale: true})
 		in := modInputOf(ms)
 		idx := make([]int, len(in.Files))
@@ -642,6 +681,7 @@ func c16MergeCheck(in modInput) string {
 
 func c16Merge(t *testing.T, rec *ev.Rec) {
 	rapid.Check(t, func(rt *rapid.T) {
+		noiseCall(rt) // one case in three is preceded by an unrelated, mostly failing call (see noise_test.go)
 		ms := gen.Modules(rt, gen.ModOpts{MaxConflicts: 1, Decoys: true, MaxFiles: 4, Layout: true, CaseNames: true, Scale: true, ScaleNoBroken: true,
 			OnlyKinds: []string{"duplicate-type-across", "duplicate-type-within", "duplicate-condition", "extend-missing-type", "relation-clash-base", "relation-clash-extensions"}})
 		in := modInputOf(ms)
